@@ -285,10 +285,13 @@ def guard_class(ty):
         return 'CONTEXT'
     if 'descriptor::DescriptorKey' in ty or 'descriptor::Descriptor' in ty:
         return 'DESCRIPTOR'
-    if 'HashMap<std::string::String' in ty:
-        # a String-keyed map behind an engine lock that is neither the context nor the descriptor
-        # store: an operator / function registry (also inside helpers generic over the value type)
-        return 'REGISTRY'
+    m = re.search(r'HashMap<std::string::String, (.*)', ty)
+    if m:
+        v = m.group(1)
+        # an operator / function registry: values are handlers, a configuration record of this crate's
+        # operator module, or a bare generic parameter (helper generic over the value type)
+        if 'dyn std::ops::Fn' in v or v.startswith('operator::') or v.startswith('function::') or re.match(r'^[A-Z]\w{0,2}[>,]', v):
+            return 'REGISTRY'
     return 'OTHER'
 
 
